@@ -260,6 +260,7 @@ PROPS["C18"] = {
         ("c18_tri_numbers", dict(unit="scalarmath::triangular_number / triangular_index", inst="usize", bounds="k < 2^12", oracle="k(k+1)/2 and T(k+1)-1", timeout=1200)),
         ("c18_subblock_map", dict(unit="augment_standard::add_subblock_map", inst="usize", bounds="clique of 3 vertices < 8, row_start < 100", oracle="appends start + svec(v_i,v_j) for i<=j in packed order")),
         ("c18_parent_block_indices", dict(unit="augment_compact::parent_block_indices", inst="usize", bounds="parent clique of 4 vertices < 10", oracle="svec index of (position of i, position of j)")),
+        ("c18_get_row_index", dict(unit="augment_compact::get_row_index (partition_point over a bounded window)", inst="usize", bounds="5 sorted distinct rows < 12, any column sub-range, row_range.start <= 6, k <= 6", oracle="Some(position) iff the row start+k is stored in the column range, at that position", timeout=1200)),
         ("c18_rows_subset", dict(unit="augment_compact::get_rows_subset", inst="usize", bounds="4 sorted rows < 12, any range in 0..12", oracle="range of positions whose row lies in the range; None only if empty")),
         ("c18_alternating_and_extra_columns", dict(nofloat=True, unit="augment_compact::alternating_sequence / extra_columns", inst="f64/usize", bounds="length 8, n_start <= 8", oracle="+1 ... then (+1,-1) pairs; pairs share consecutive new column numbers")),
         ("c18_overlaps_in_rows", dict(unit="reverse_standard::number_of_overlaps_in_rows (row_sums, position_all)", inst="f64", bounds="four enumerated 3x3 0/1 patterns", oracle="rows with >1 entries, in order, with their counts")),
@@ -365,6 +366,9 @@ PROPS["C15"] = {
     "assumptions": [],
     "harnesses": _mk("c15", _c15),
 }
+_C07_LOOP = dict(name="c04::c04_loop_asym_dual_mi1", nofloat=True, stubs=True, unit=_LOOP_UNIT, inst="f64", timeout=1500, mem_gb=20,
+                 bounds="max_iter<=1, nonsymmetric cones / dual scaling (barrier backtracking active); Settings::core() hands the loop a POISONED max_iter, only the termination check sees the real one",
+                 oracle=_LOOP_OR + "; every step taken under dual scaling was accepted by the barrier test; nothing depends on the poisoned budget")
 PROPS["C07"] = {
     "native_tests": ["tv_composite"],
     "feature": "c07",
@@ -376,7 +380,7 @@ PROPS["C07"] = {
         ("c07_budget_noninterference", dict(nofloat=True, unit="DefaultInfo::check_termination", inst="f64 every bit pattern", bounds="two settings differing only in max_iter, both != iterations", oracle="identical verdict and return value", timeout=900)),
         ("c15_nn2_range", dict(nofloat=True, unit="NonnegativeCone::step_length", inst="f64 every bit pattern", bounds="dim 2", oracle="<= alpha_max; nonnegative for interior points", timeout=1200)),
         ("c15_soc3_range", dict(nofloat=True, unit="SecondOrderCone::step_length", inst="f64", bounds="dim 3", oracle="step in [0, alpha_max]", timeout=1800, mem_gb=20)),
-    ]),
+    ]) + [_C07_LOOP],
 }
 
 PROPS["C08"] = {
